@@ -27,7 +27,7 @@ import types
 REAL = {}
 CUR = threading.local()
 STATE = types.SimpleNamespace(root=None, installed=False, shims=[], files=[], flocks={}, mainctr=itertools.count(),
-                              dirty=set())
+                              dirty=set(), outside=None)
 
 TMP_PREFIXES = ("objects/tmp", "metadata/tmp", "refs/tmp")
 
@@ -100,6 +100,8 @@ def _mk_hook(name, nargs):
             return real(*a, **k)
         rs = [relp(x) for x in a[:nargs]]
         if all(r is None for r in rs):
+            if kind not in ("probe",) and STATE.outside is not None:
+                STATE.outside.append((name,) + tuple(str(x) for x in a[:nargs]))
             return real(*a, **k)
         visible = any(r is not None and not is_private(r) for r in rs)
         if kind != "probe":
@@ -132,6 +134,8 @@ def _os_open(path, flags, mode=0o777, *, dir_fd=None):
     w = cur()
     r = relp(path) if w is not None else None
     if r is None:
+        if w is not None and STATE.outside is not None and flags & (os.O_CREAT | os.O_WRONLY | os.O_RDWR | os.O_TRUNC):
+            STATE.outside.append(("os.open", str(path)))
         return REAL["os.open"](path, flags, mode, dir_fd=dir_fd)
     kind = "create" if flags & os.O_CREAT else ("open-w" if flags & (os.O_WRONLY | os.O_RDWR) else "open-r")
     if kind != "open-r":
@@ -250,6 +254,8 @@ def _open(file, mode="r", buffering=-1, encoding=None, errors=None, newline=None
     w = cur()
     r = relp(file) if w is not None else None
     if r is None:
+        if w is not None and STATE.outside is not None and any(c in mode for c in "wax+") and not isinstance(file, int):
+            STATE.outside.append(("open:" + mode, str(file)))
         return REAL["open"](file, mode, buffering, encoding, errors, newline, closefd, opener)
     writing = any(c in mode for c in "wax+")
     creating = any(c in mode for c in "wax")
